@@ -119,6 +119,9 @@ def gen_op(s: Choices, family: str, ds, mask_kinds=("none", "bool", "slice", "po
         else:
             op["halflife"] = ["2s", "500ms"][s.draw(2)]
             op["steps"] = [1 + s.draw(3) for _ in range(ds["n"])]
+            # where the timestamps lie relative to the epoch (dates before 1970 and integer
+            # clocks starting at zero are ordinary inputs; seeded change C19-i lives there)
+            op["epoch"] = s.weighted([(4, "2024"), (1, "zero"), (1, "pre1970")])
     elif name in ("head", "tail", "nth"):
         # n beyond the largest group selects every row (pandas may then hand out a view)
         op["n"] = [0, 1, 2, 3, 1000][s.draw(5)] if name != "nth" else s.draw(4) - 1
@@ -177,6 +180,11 @@ def build_times(ds, op):
     steps = op["steps"]
     base = np.datetime64("2024-01-01T00:00:00", "ns").astype("int64")
     t = base + np.cumsum(np.array(steps, dtype="int64")) * 1_000_000_000
+    epoch = op.get("epoch", "2024")
+    if epoch == "zero":
+        t = t - t[0] if len(t) else t
+    elif epoch == "pre1970":
+        t = t - base - np.int64(86_400_000_000_000) * 365 * 20
     return t.view("datetime64[ns]")
 
 
